@@ -1,9 +1,17 @@
 package message
 
+import (
+	"context"
+	"io"
+
+	"github.com/PelicanPlatform/classad/classad"
+)
+
 func init() {
 	vRegister("VH_C13_TypedDecode", VH_C13_TypedDecode)
 	vRegister("VH_C13_CappedString", VH_C13_CappedString)
 	vRegister("VH_C13_StringDecode", VH_C13_StringDecode)
+	vRegister("VH_C13_ClassAdReaders", VH_C13_ClassAdReaders)
 }
 
 // vhAdversary scripts up to three frames of symbolic length (<= maxLen each),
@@ -19,7 +27,7 @@ func vhAdversary(enc bool, nf int, maxLen int) (*vhStream, int) {
 		r.feed(f, vBool(enames[i]))
 		total += len(f)
 	}
-	vAllocLimit(total + 64)
+	vAllocLimit(total + 64 + MaxFrameSize)
 	return r, total
 }
 
@@ -114,5 +122,73 @@ func VH_C13_CappedString() {
 		vCover("capped-error")
 	} else {
 		vCover("capped-ok")
+	}
+}
+
+// VH_C13_ClassAdReaders: the raw-text, skipping and bounded parsing ClassAd
+// readers over two adversarial frames (<= 9 bytes each): no panic, allocations
+// bounded by the bytes delivered, and every loop - in particular the loop over
+// the peer-announced expression count - ends within input size + 4 iterations
+// (a count that is not backed by data must produce an error, not a spin).
+//
+//verif:unwind 24
+func VH_C13_ClassAdReaders() {
+	enc := vBool("enc")
+	// first frame: exactly the 8-byte expression count; second frame: <= 4 bytes
+	r := &vhStream{enc: enc}
+	r.feed(vBlob("count", 8), vBool("e0"))
+	rest := vBytes("rest", 4)
+	r.feed(rest, true)
+	total := 8 + len(rest)
+	vAllocLimit(total + 64 + MaxFrameSize)
+	pfNames := [16]string{"pf0", "pf1", "pf2", "pf3", "pf4", "pf5", "pf6", "pf7", "pf8", "pf9", "pf10", "pf11", "pf12", "pf13", "pf14", "pf15"}
+	npf := 0
+	VerifHook_parseAndInsertExpression = func(ad *classad.ClassAd, s string) error {
+		if npf < len(pfNames) {
+			npf++
+			if vBool(pfNames[npf-1]) {
+				return io.ErrUnexpectedEOF
+			}
+		}
+		return nil
+	}
+	// count string-level reads: each consumes at least one byte unless the message is exhausted
+	reads := 0
+	VerifHook_Message_GetString = func(m *Message, ctx context.Context) (string, error) {
+		reads++
+		return m.GetString__orig(ctx)
+	}
+	VerifHook_Message_SkipString = func(m *Message, ctx context.Context) error {
+		reads++
+		return m.SkipString__orig(ctx)
+	}
+	VerifHook_Message_GetStringWithMaxSize = func(m *Message, ctx context.Context, n int) (string, error) {
+		reads++
+		return m.GetStringWithMaxSize__orig(ctx, n)
+	}
+	defer func() {
+		VerifHook_parseAndInsertExpression = nil
+		VerifHook_Message_GetString = nil
+		VerifHook_Message_SkipString = nil
+		VerifHook_Message_GetStringWithMaxSize = nil
+	}()
+	m := NewMessageFromStream(r)
+	var err error
+	switch vChoice("reader", 3) {
+	case 0:
+		_, err = m.GetClassAdRaw(vhCtx)
+	case 1:
+		err = m.SkipClassAdRaw(vhCtx)
+	case 2:
+		cap := vInt("cap")
+		vAssume(cap >= 0 && cap <= 12)
+		_, err = getClassAdFromMessageWithMaxSize(m, cap, vhCtx)
+	}
+	vTag("reads", reads)
+	vAssert(reads <= total+4, "string-reads-bounded-by-bytes-delivered")
+	if err != nil {
+		vCover("reader-error")
+	} else {
+		vCover("reader-ok")
 	}
 }
